@@ -122,8 +122,7 @@ func c01(p *core.Program, r *core.Report) {
 						for _, in := range fb.Instrs {
 							if ret, isRet := in.(*ssa.Return); isRet {
 								last := ret.Results[len(ret.Results)-1]
-								mi, isMI := last.(*ssa.MakeInterface)
-								if !isMI || namedTypeQual(mi.X.Type()) != mod+".ErrStrideMismatch" {
+								if !errValueOfType(last, mod+".ErrStrideMismatch", 0) {
 									failOK, why = false, "mismatch edge does not return ErrStrideMismatch"
 								}
 							}
@@ -430,7 +429,7 @@ func c02(p *core.Program, r *core.Report) {
 			for _, in := range b.Instrs {
 				if ret, ok := in.(*ssa.Return); ok && len(ret.Results) == 1 && !eng.IsNilConst(ret.Results[0]) {
 					errRets = append(errRets, ret)
-					if mi, ok := ret.Results[0].(*ssa.MakeInterface); ok && namedTypeQual(mi.X.Type()) == mod+".ErrLayoutMismatch" {
+					if errValueOfType(ret.Results[0], mod+".ErrLayoutMismatch", 0) {
 						mismatchRet = true
 					}
 				}
